@@ -90,12 +90,12 @@ def main():
         if kind == "mutant":
             cid = f"{prop}-m{k}"
             dst = os.path.join("/verif/seeded", cid)
-            meta = {"id": cid, "property": prop, "round": 2, "source": "independent sub-agent given only the property text and its own scratch clone (nothing from /verif)",
+            meta = {"id": cid, "property": prop, "round": int(os.environ.get("VERIF_ROUND", "2")), "source": "independent sub-agent given only the property text and its own scratch clone (nothing from /verif)",
                     "files_changed": info["files_changed"], "needs_to_manifest": " ".join(notes.split())[:700], "confirmed": {x: y for x, y in info.items() if x != "files_changed"}}
         else:
             cid = f"{prop}-r{k}"
             dst = os.path.join("/verif/selftest/refactorings", cid)
-            meta = {"id": cid, "anchored_property": prop, "round": 2, "kind": "behaviour-preserving refactoring",
+            meta = {"id": cid, "anchored_property": prop, "round": int(os.environ.get("VERIF_ROUND", "2")), "kind": "behaviour-preserving refactoring",
                     "source": "independent sub-agent given only the property text and its own scratch clone (nothing from /verif)",
                     "files_changed": info["files_changed"], "what": " ".join(notes.split())[:700], "confirmed": {x: y for x, y in info.items() if x != "files_changed"}}
         if os.path.exists(dst):
